@@ -196,9 +196,10 @@ fn main() {
     std::process::exit(finish(&ctx, &prop, report, wall));
 }
 
-fn finish(ctx: &Ctx, prop: &str, report: Report, wall: f64) -> i32 {
+fn finish(ctx: &Ctx, prop_full: &str, report: Report, wall: f64) -> i32 {
     let Report { mut tally, rule, assumptions, quotas } = report;
     let mut exit = 0;
+    let prop = prop_full.split('-').next().unwrap_or(prop_full);
     // write witnesses and print verdict lines
     let rdir = ctx.verif.join("replay");
     let _ = std::fs::create_dir_all(&rdir);
@@ -235,12 +236,32 @@ fn finish(ctx: &Ctx, prop: &str, report: Report, wall: f64) -> i32 {
     if !ctx.replaying {
         let edir = ctx.verif.join("evidence");
         let _ = std::fs::create_dir_all(&edir);
-        let epath = edir.join(format!("{prop}.json"));
-        if let Err(e) = std::fs::write(&epath, serde_json::to_string_pretty(&ev).unwrap()) {
+        let (base, engine) = match prop_full.split_once('-') {
+            Some((b, e)) => (b, Some(e)),
+            None => (prop, None),
+        };
+        let epath = edir.join(format!("{base}.json"));
+        let doc = match engine {
+            None => ev,
+            Some(engine) => {
+                // an extra engine of the thorough tier: fold what it observed into the property's evidence file
+                let mut main: Value = std::fs::read_to_string(&epath).ok().and_then(|s| serde_json::from_str(&s).ok()).unwrap_or_else(|| ev.clone());
+                main["property_id"] = json!(base);
+                let extra = json!({"evaluations": ev["coverage"]["evaluations"], "counters": ev["coverage"]["counters"], "samples": ev["coverage"]["samples"], "rule": ev["coverage"]["rule"], "wall_s": ev["wall_s"], "violations": ev["violations"]});
+                main["coverage"][format!("extra_engine.{engine}")] = extra;
+                let n = main["coverage"]["evaluations"].as_u64().unwrap_or(0) + ev["coverage"]["evaluations"].as_u64().unwrap_or(0);
+                main["coverage"]["evaluations"] = json!(n);
+                main["wall_s"] = json!(main["wall_s"].as_f64().unwrap_or(0.0) + ev["wall_s"].as_f64().unwrap_or(0.0));
+                main["violations"] = json!(main["violations"].as_u64().unwrap_or(0) + ev["violations"].as_u64().unwrap_or(0));
+                main
+            }
+        };
+        if let Err(e) = std::fs::write(&epath, serde_json::to_string_pretty(&doc).unwrap()) {
             eprintln!("HARNESS-ERROR: cannot write evidence {}: {e}", epath.display());
             return 2;
         }
     }
+
     println!(
         "{} {}: cases={} evaluations={} distinct_nontrivial={} violations={} known_findings={} wall={:.1}s",
         prop,
